@@ -252,7 +252,7 @@ func renderRule(r eRule) string {
 
 func renderConfig(c *eCase) string {
 	var sb strings.Builder
-	sb.WriteString("SecRuleEngine " + c.Mode + "\n")
+	sb.WriteString("SecRuleEngine " + c.Mode + "\nSecArgumentsLimit 8\n")
 	for _, r := range c.Rules {
 		sb.WriteString(renderRule(r))
 	}
@@ -280,14 +280,29 @@ func execEng(a []string) string {
 	if err := json.Unmarshal([]byte(a[0]), &c); err != nil {
 		return "BADCASE"
 	}
-	var cb []string
-	cfg := coraza.NewWAFConfig().WithDirectives(renderConfig(&c)).WithErrorCallback(func(mr types.MatchedRule) {
-		cb = append(cb, strconv.Itoa(mr.Rule().ID()))
+	waf, cb, errs := buildEngWAF(&c)
+	if errs != "" {
+		return errs
+	}
+	return runEngCase(waf, &c, cb)
+}
+
+// buildEngWAF compiles the case's configuration; cb collects error-callback rule ids.
+func buildEngWAF(c *eCase) (coraza.WAF, *[]string, string) {
+	cb := &[]string{}
+	cfg := coraza.NewWAFConfig().WithDirectives(renderConfig(c)).WithErrorCallback(func(mr types.MatchedRule) {
+		*cb = append(*cb, strconv.Itoa(mr.Rule().ID()))
 	})
 	waf, err := coraza.NewWAF(cfg)
 	if err != nil {
-		return "CONFIGERR " + strings.ReplaceAll(err.Error(), " ", "_")
+		return nil, nil, "CONFIGERR " + strings.ReplaceAll(err.Error(), " ", "_")
 	}
+	return waf, cb, ""
+}
+
+// runEngCase runs one transaction of the case on the given WAF and renders the observation.
+func runEngCase(waf coraza.WAF, c *eCase, cbp *[]string) string {
+	*cbp = (*cbp)[:0]
 	tx := waf.NewTransaction()
 	defer tx.Close()
 	for _, p := range c.Get {
@@ -333,7 +348,7 @@ func execEng(a []string) string {
 	sort.Strings(txs)
 	hs := st.Variables().HighestSeverity().Get()
 	return fmt.Sprintf("%s ; i=%s ; m=%s ; tx=%s ; hs=%s ; cb=%s", orDash(strings.Join(outs, ",")), renderIntr(tx.Interruption()),
-		orDash(strings.Join(ms, ",")), orDash(strings.Join(txs, ",")), hs, orDash(strings.Join(cb, ",")))
+		orDash(strings.Join(ms, ",")), orDash(strings.Join(txs, ",")), hs, orDash(strings.Join(*cbp, ",")))
 }
 
 // ---- generator ----
@@ -361,6 +376,9 @@ func genLink(r *gen.R, p engProfile, first, prevDet bool, ruleIDs []int) (eLink,
 		t.X = []string{}
 		if !first && prevDet && det && r.Chance(0.3) {
 			t.V = r.Pick("MATCHED_VAR", "MATCHED_VAR_NAME")
+			t.K = "-"
+		} else if r.Chance(0.06) {
+			t.V = "ARGS_COMBINED_SIZE"
 			t.K = "-"
 		} else {
 			t.V = eMapVar[r.Intn(len(eMapVar))]
@@ -542,7 +560,11 @@ func genEngCase(r *gen.R, p engProfile) *eCase {
 			if r.Chance(0.1) {
 				v = r.Bytes(2)
 			}
-			out = append(out, [2]string{gen.Field(r.Pick(eKeys...)), gen.Field(v)})
+			k := r.Pick(eKeys...)
+			if r.Chance(0.05) {
+				k = r.Pick("\xff", "K", "c\xc3\xa9", "İ")
+			}
+			out = append(out, [2]string{gen.Field(k), gen.Field(v)})
 		}
 		return out
 	}
@@ -571,18 +593,108 @@ var engProfiles = map[string]engProfile{
 // engrep: the same case N times on fresh WAFs; any difference between repetitions is reported
 func execEngRep(a []string) string {
 	first := execEng(a)
-	for i := 0; i < 12; i++ {
+	if strings.HasPrefix(first, "CONFIGERR") || first == "BADCASE" {
+		return first
+	}
+	for i := 0; i < 5; i++ {
 		if o := execEng(a); o != first {
-			return "UNSTABLE " + first + " ||| " + o
+			return "UNSTABLE-FRESH " + first + " ||| " + o
+		}
+	}
+	// the same transaction repeated on one long-lived WAF (pooled transaction objects are reused)
+	var c eCase
+	json.Unmarshal([]byte(a[0]), &c)
+	waf, cb, errs := buildEngWAF(&c)
+	if errs != "" {
+		return errs
+	}
+	for i := 0; i < 7; i++ {
+		if o := runEngCase(waf, &c, cb); o != first {
+			return "UNSTABLE-LONGLIVED " + first + " ||| " + o
 		}
 	}
 	return first
 }
 
+// iso <predecessor case> <probe case>: both on ONE WAF (same rules), predecessor first, closed
+// (its transaction object goes back to the pool), then the probe; only the probe is observed.
+func execIso(a []string) string {
+	var pred, probe eCase
+	if json.Unmarshal([]byte(a[0]), &pred) != nil || json.Unmarshal([]byte(a[1]), &probe) != nil {
+		return "BADCASE"
+	}
+	waf, cb, errs := buildEngWAF(&probe)
+	if errs != "" {
+		return errs
+	}
+	for i := 0; i < 2; i++ { // twice: the pool may hold more than one object
+		runEngCase(waf, &pred, cb)
+	}
+	return runEngCase(waf, &probe, cb)
+}
+
 func init() {
-	engines["engrep"] = &engine{Exec: execEngRep, Gen: func(c *ctx) {
-		p := engProfiles["cache"]
+	engines["iso"] = &engine{Exec: execIso, Gen: func(c *ctx) {
 		for i := 0; i < c.n; i++ {
+			p := engProfiles[[]string{"api", "ctl", "flow", "acct"}[i%4]]
+			probe := genEngCase(c.r, p)
+			guarded := c.r.Chance(0.5)
+			if guarded {
+				// a first rule whose actions only the predecessor triggers (ARGS_GET:trig=1): anything it
+				// changes must die with the predecessor
+				g := eRule{ID: 5, Ph: 1, Mk: "-", Rt: "-", Sa: "-", Sev: -1, Tags: []string{}, Log: false, Audit: false}
+				l := eLink{Tg: []eTarget{{V: "ARGS_GET", K: gen.Field("trig"), X: []string{}}}, Op: &eOp{N: "streq", A: gen.Field("1")}, Tfs: []string{}, NA: []eNAct{}}
+				ids := []int{}
+				for _, ru := range probe.Rules {
+					if ru.ID != 0 {
+						ids = append(ids, ru.ID)
+					}
+				}
+				for k := 1 + c.r.Intn(2); k > 0; k-- {
+					a := genNAct(c.r, engProfile{ctl: 0.7}, true, ids)
+					if a.N == "ctlRemoveTargetById" {
+						// aim at a target that really exists in that rule
+						for _, ru := range probe.Rules {
+							if ru.ID == a.Lo && len(ru.Links) > 0 && len(ru.Links[0].Tg) > 0 {
+								t := ru.Links[c.r.Intn(len(ru.Links))].Tg
+								if len(t) > 0 {
+									a.Var, a.K = t[0].V, t[0].K
+								}
+							}
+						}
+					}
+					l.NA = append(l.NA, a)
+				}
+				g.Links = []eLink{l}
+				probe.Rules = append([]eRule{g}, probe.Rules...)
+			}
+			pred := *probe
+			other := genEngCase(c.r, p)
+			pred.Get, pred.Post, pred.Hdr, pred.Calls = other.Get, other.Post, other.Hdr, other.Calls
+			// the predecessor brings its own argument names (argument-limit accounting must not carry over)
+			for k := 0; k < 5; k++ {
+				pred.Get = append(pred.Get, [2]string{gen.Field("p" + strconv.Itoa(c.r.Intn(40))), gen.Field("v")})
+			}
+			if guarded {
+				pred.Get = append([][2]string{{gen.Field("trig"), gen.Field("1")}}, pred.Get...)
+				c.stats.Hit("predecessor-only-actions")
+			}
+			if c.r.Chance(0.3) && len(pred.Calls) > 0 {
+				pred.Calls = pred.Calls[:len(pred.Calls)-1] // e.g. no ProcessLogging
+			}
+			b1, _ := json.Marshal(&pred)
+			b2, _ := json.Marshal(probe)
+			obs := c.run("iso", string(b1), string(b2))
+			if strings.Contains(obs, "; m=-") {
+				c.stats.Hit("probe-fired:none")
+			} else {
+				c.stats.Hit("probe-fired:some")
+			}
+		}
+	}}
+	engines["engrep"] = &engine{Exec: execEngRep, Gen: func(c *ctx) {
+		for i := 0; i < c.n; i++ {
+			p := engProfiles[[]string{"cache", "ctl", "acct"}[i%3]]
 			cs := genEngCase(c.r, p)
 			// repeated names within and across collections
 			for k := 0; k < 2; k++ {
